@@ -36,6 +36,8 @@ func runC02(r *Run) {
 	r.checkFullThenUpdate(P)
 	r.checkFirstApplicable(P, "OperationProcessor.applyFirstValidOperation")
 	r.checkFirstApplicable(P, "OperationProcessor.applyFirstValidCreateOperation")
+	r.checkCandidateNoTrace(P, "OperationProcessor.applyFirstValidOperation")
+	r.checkCandidateNoTrace(P, "OperationProcessor.applyFirstValidCreateOperation")
 	r.checkAdditionalMerge(P)
 	if r.Universal {
 		r.universalSorts(P)
